@@ -195,17 +195,20 @@ def canon_tie(ctx, records):
         m, im = rec["model"], rec["impl"]
         if m is None or not m.get("canon") or im.get("compile") != "ok":
             continue
-        text2 = render_canon(m["canon"])
-        if text2 is None:
-            ctx.count("canon:no-lexeme")
-            continue
-        ctx.count("canon:rendered")
-        im2 = common.impl_stages(text2, [])
-        if im2.get("compile") != "ok":
-            ctx.violation(f"the canonical (fully parenthesised) rendering of a compiled experiment does not compile ({im2['compile']}): {text2[:200]}",
-                          {"text": text2, "from": rec["case"]["text"], "impl_compile": im2["compile"]})
-        elif im2.get("ast") != im.get("ast"):
-            ctx.tie_break("canonical-rendering", {"text": text2, "from": rec["case"]["text"][:400]})
+        for which, name in (("canon", "canonical (fully parenthesised)"), ("canonmin", "minimally parenthesised")):
+            if not m.get(which):
+                continue
+            text2 = render_canon(m[which])
+            if text2 is None:
+                ctx.count(which + ":no-lexeme")
+                continue
+            ctx.count(which + ":rendered")
+            im2 = common.impl_stages(text2, [])
+            if im2.get("compile") != "ok":
+                ctx.violation(f"the {name} rendering of a compiled experiment does not compile ({im2['compile']}): {text2[:200]}",
+                              {"text": text2, "from": rec["case"]["text"], "impl_compile": im2["compile"]})
+            elif im2.get("ast") != im.get("ast"):
+                ctx.tie_break(which + "-rendering", {"text": text2, "from": rec["case"]["text"][:400]})
 
 
 def k1_cases(ctx):
